@@ -163,8 +163,10 @@ RunObs(j, t) == [begun |-> runs[j][t].begun, refused |-> 0, open |-> t \in runni
                  execAtBegin |-> runs[j][t].execAtBegin, execAtEnd |-> runs[j][t].execAtEnd,
                  goneAtBegin |-> runs[j][t].goneAtBegin, goneAtEnd |-> runs[j][t].goneAtEnd, unknown |-> FALSE]
 \* the persisted fields of a job as they are reported now
+\* (of a task its status and its error are persisted, not its canceled flag)
 Persisted(jb, j) == [completed |-> jb[j].completed, canceled |-> jb[j].canceled, started |-> jb[j].started,
-                     lastErr |-> jb[j].lastErr, rep |-> jb[j].rep]
+                     lastErr |-> jb[j].lastErr,
+                     rep |-> [t \in DOMAIN jb[j].rep |-> [status |-> jb[j].rep[t].status, errored |-> jb[j].rep[t].errored]]]
 StoreObs(j) == IF store[j].present
                THEN [present |-> TRUE, completed |-> store[j].rec.completed, canceled |-> store[j].rec.canceled,
                      started |-> store[j].rec.started, same |-> job[j].present /\ store[j].rec = Persisted(job, j)]
@@ -295,7 +297,8 @@ Schedule(p, bad) ==
                                        failedAtAck |-> FALSE, stopBefore |-> FALSE])
                 /\ store' = Append(store, [present |-> FALSE])
                 /\ logs' = Append(logs, FALSE)
-                /\ ReqPersist
+                \* ScheduleAsync and startJob each leave a request (both deferred): two when the job is started (or fails to start) at once
+                /\ IF act = "start" THEN ReqPersistMany ELSE ReqPersist
                 /\ last' = [NoLast EXCEPT !.op = "schedule", !.p = p, !.bad = bad, !.new = n]
   /\ OpEv(0, 0, "")
   /\ Step(HStep("schedule", p, 0, 0, "", 0, bad))
@@ -499,7 +502,8 @@ JobComplete(j) ==
                  S0 == [Bundle EXCEPT !.job[j].completed = TRUE, !.job[j].lastErr = err,
                                       !.job[j].canceled = (err = "canceled"), !.sched[j].pc = "done"]
              IN ApplyBundle(Dequeue(S0, job[j].p))
-          /\ ReqPersist
+          \* JobCompleted's own request, and one per job that startJobsOnWaitList starts
+          /\ IF waitList[job[j].p] # <<>> THEN ReqPersistMany ELSE ReqPersist
   /\ ev' = [k |-> "JobCompleted", j |-> j, t |-> 0, o |-> ""]
   /\ NoStep /\ PreNext
   /\ UNCHANGED <<cfgv, epoch, stage, running, rctx, cancelPending, shut, store, logs, nops, nreloads, nticks, runs, stop, ack, last, clock>>
@@ -512,8 +516,11 @@ TimerFire(j) ==
   /\ IF job[j].canceled \/ ~job[j].present
      THEN /\ job' = [job EXCEPT ![j].timer = "none"]     \* returns early; the timer is spent
           /\ UNCHANGED <<waitList, sched, persist>>
-     ELSE /\ ApplyBundle(Dequeue([Bundle EXCEPT !.job[j].timer = "none"], job[j].p))
-          /\ ReqPersist
+     ELSE LET S == Dequeue([Bundle EXCEPT !.job[j].timer = "none"], job[j].p) IN
+          /\ ApplyBundle(S)
+          \* only startJob leaves a request: nothing is requested when the head still cannot start
+          /\ IF \E k \in Jobs : S.job[k].started # job[k].started \/ S.job[k].canceled # job[k].canceled
+             THEN ReqPersist ELSE UNCHANGED persist
   /\ ev' = [k |-> "Timer", j |-> j, t |-> 0, o |-> ""]
   /\ NoStep /\ PreNext
   /\ UNCHANGED <<cfgv, epoch, stage, running, rctx, cancelPending, shut, store, logs, nops, nreloads, nticks, runs, stop, ack, last, clock>>
@@ -670,8 +677,10 @@ Restart ==
                               !.rst = @ \/ wasRunning \/ wasWaiting,
                               !.lastErr = r.lastErr,        \* part of the persisted job (repaired D5)
                               !.timer = "none", !.creq = FALSE,
-                              !.rep = [t \in DOMAIN r.rep |-> IF wasRunning /\ r.rep[t].status \in {"waiting", "running"}
-                                                               THEN [r.rep[t] EXCEPT !.status = "canceled"] ELSE r.rep[t]]]]
+                              \* (the canceled flag of a task is not part of the persisted task: it comes back unset)
+                              !.rep = [t \in DOMAIN r.rep |->
+                                         [status |-> IF wasRunning /\ r.rep[t].status \in {"waiting", "running"} THEN "canceled" ELSE r.rep[t].status,
+                                          errored |-> r.rep[t].errored, canceled |-> FALSE]]]]
   /\ stage' = [j \in Jobs |-> [t \in DOMAIN stage[j] |-> "done"]]
   /\ sched' = [j \in Jobs |-> [pc |-> "none", cancelled |-> FALSE, lastErr |-> ""]]
   /\ running' = [j \in Jobs |-> {}]
